@@ -196,11 +196,23 @@ func (box *boxTracker) compactRules(rules []css_ast.Rule, keyRange logger.Range,
 	}
 
 	// Insert the combined declaration where the last rule was
-	rules[box.sides[3].ruleIndex] = css_ast.Rule{Loc: minLoc, Data: &css_ast.RDeclaration{
+	lastRuleIndex := box.sides[0].ruleIndex
+	for _, side := range box.sides[1:] {
+		if side.ruleIndex > lastRuleIndex {
+			lastRuleIndex = side.ruleIndex
+		}
+	}
+	rules[lastRuleIndex] = css_ast.Rule{Loc: minLoc, Data: &css_ast.RDeclaration{
 		Key:       box.key,
 		KeyText:   box.keyText,
 		Value:     tokens,
 		KeyRange:  keyRange,
 		Important: box.important,
 	}}
+
+	// All sides now come from the combined declaration
+	for i := range box.sides {
+		box.sides[i].ruleIndex = lastRuleIndex
+		box.sides[i].wasSingleRule = false
+	}
 }
